@@ -30,6 +30,27 @@ contract(f"{FS}:FilesystemIsolation._record_created", sig={"self": "FilesystemIs
                   "all(implies(paths[i] is not None, NORM(paths[i]) in self._created) for i in range(len(paths)))",
                   "all(x in old(self._created) or any(paths[i] is not None and NORM(paths[i]) == x for i in range(len(paths))) "
                   "for x in self._created)"])
+# -- _is_isolated: "the path itself or one of its ancestors was created inside the isolation" ----------------------------------
+# PARENT = os.path.dirname (assumed, uninterpreted); UP(s, n) = PARENT applied n times.  The three requires-clauses are the
+# definition of UP and its one inductive consequence (a fixed point of PARENT absorbs further applications); they constrain
+# only the uninterpreted symbols, not the inputs (the cover obligation shows they are satisfiable).  Termination of the walk
+# (dirname reaches a fixed point) is not proved.
+ufun("PARENT", ["str"], "str")
+ufun("UP", ["str", "int"], "str")
+contract("os.path:dirname", mode="assume", sig={"p": "str"}, returns="str", ensures=["result == PARENT(p)"])
+ISO = f"{FS}:FilesystemIsolation._is_isolated"
+contract(ISO, sig={"self": "FilesystemIsolation", "path": "str"}, returns="bool",
+         requires=["forall(lambda s: UP(s, 0) == s, 'str')",
+                   "forall(lambda s, n: implies(n >= 0, UP(s, n + 1) == PARENT(UP(s, n))), 'str', 'int')",
+                   "forall(lambda s, n, k: implies(n >= 0 and k >= 0 and PARENT(UP(s, n)) == UP(s, n), UP(s, n + k) == UP(s, n)), "
+                   "       'str', 'int', 'int')"],
+         ensures=["result == exists(lambda n: n >= 0 and UP(NORM(path), n) in self._created, 'int')"])
+loop(ISO, 0, invariant=[
+    "exists(lambda n: n >= 0 and current == UP(NORM(path), n) and "
+    "       forall(lambda m: implies(0 <= m and m < n, UP(NORM(path), m) not in self._created), 'int'), 'int')"])
+assumption("os.path.dirname is a pure function PARENT of the path text; UP(s, n) is PARENT applied n times (definition and the "
+           "fixed-point consequence enter _is_isolated's contract as requires-clauses over the uninterpreted symbols); the walk's "
+           "termination is not proved")
 contract(f"{FS}:FilesystemIsolation._get_arg",
          sig={"args": "list[Optional[str]]", "kwargs": "dict[str,Optional[str]]", "index": "Optional[int]"},
          returns="Optional[str]", requires=["implies(index is not None, index >= 0)"],
